@@ -65,6 +65,20 @@ def query (t : Tables) (q : List String) : Option String :=
       let a ← a.toNat?
       some (join ((List.range' a (n + 1 - a)).map fun b =>
         opt (fun (l : List (Nat × Nat)) => "/".intercalate (l.map fun p => s!"{p.1}:{p.2}")) (t.getRanges a b)))
+  | ["dtn", i] => do
+      let i ← i.toNat?
+      some (opt (fun (p : Nat × Nat) => s!"{p.1}:{p.2}") (t.stts.getDecodeTime i))
+  | ["durn", i] => do some (opt toString (t.stts.getDur (← i.toNat?)))
+  | ["nrat", x] => do some (match t.stts.getSampleNrAtTime (← x.toNat?) with | some k => toString k | none => "e")
+  | ["cton", i] => do
+      let i ← i.toNat?
+      some (match t.ctts with | none => "-" | some c => opt toString (c.getCto i))
+  | ["chunkofn", i] => do some (opt (fun (p : Nat × Nat) => s!"{p.1}:{p.2}") (t.stsc.chunkNrFromSampleNr (← i.toNat?)))
+  | ["chunkn", c] => do some (opt (fun (k : Chunk) => s!"{k.startSampleNr}:{k.nrSamples}") (t.stsc.getChunk (← c.toNat?)))
+  | ["totab", a, b] => do some (match t.stsz.getTotalSampleSize (← a.toNat?) (← b.toNat?) with | some k => toString k | none => "e")
+  | ["chunksab", a, b] => do some (opt showChunks (t.stsc.getContainingChunks (← a.toNat?) (← b.toNat?)))
+  | ["rangesab", a, b] => do
+      some (opt (fun (l : List (Nat × Nat)) => "/".intercalate (l.map fun p => s!"{p.1}:{p.2}")) (t.getRanges (← a.toNat?) (← b.toNat?)))
   | ["sdata", a, b] => do
       let a ← a.toNat?
       let b ← b.toNat?
